@@ -39,7 +39,7 @@ pub struct St {
 #[derive(Clone, Debug, PartialEq, Eq, Hash, Serialize, Deserialize)]
 pub enum E {
     /// outcome: 0 nothing, 1 accepted unconfirmed dl in RX1, 2 accepted confirmed dl in RX2, 3 rejected dl in RX1,
-    /// 4 (Class C) accepted confirmed dl before RX1, 5 (Class C) accepted unconfirmed dl before RX2
+    /// 4 (Class C) accepted confirmed dl before RX1, 5 (Class C) accepted unconfirmed dl before RX2, 7 oversized frame in RX2
     Up { confirmed: bool, outcome: u8 },
     SetAdr(bool),
     SetDr(u8),
@@ -51,6 +51,12 @@ fn next_lower(region: &str, dr: u8) -> Option<u8> {
 
 fn dlf(confirmed: bool, tamper: Tamper) -> Frame {
     Frame::Down { fcnt: Fcnt::Rel(1), confirmed, ack: false, fopts: vec![], port: Some(1), payload: vec![5], tamper }
+}
+
+/// an authentic, fresh frame that is longer than the RX2 data rate of every region allows: it ends the receive
+/// procedure like a timeout, the uplink still counts as one without an accepted downlink
+fn oversized() -> Frame {
+    Frame::Down { fcnt: Fcnt::Rel(1), confirmed: false, ack: false, fopts: vec![], port: Some(1), payload: vec![7; 200], tamper: Tamper::None }
 }
 
 fn cfg_of(region: &str, s: &St) -> DevCfg {
@@ -88,6 +94,7 @@ fn run_event(front: &str, region: &str, s: &St, e: &E) -> Observed {
                     1 => (Some(dlf(false, Tamper::None)), None),
                     2 => (None, Some(dlf(true, Tamper::None))),
                     3 => (Some(dlf(true, Tamper::BadMic)), None),
+                    7 => (None, Some(oversized())),
                     _ => (None, None),
                 };
                 Ev::Cycle { confirmed: *confirmed, port: 1, len: 1, rx1, rx2 }
@@ -118,6 +125,7 @@ fn run_event(front: &str, region: &str, s: &St, e: &E) -> Observed {
                     1 => Script { rx1: Some(dlf(false, Tamper::None)), ..Default::default() },
                     2 => Script { rx2: Some(dlf(true, Tamper::None)), ..Default::default() },
                     3 => Script { rx1: Some(dlf(true, Tamper::BadMic)), ..Default::default() },
+                    7 => Script { rx2: Some(oversized()), ..Default::default() },
                     4 => Script { rxc1: vec![dlf(true, Tamper::None)], ..Default::default() },
                     5 => Script { rxc2: vec![dlf(false, Tamper::None)], ..Default::default() },
                     // a confirmed Class C downlink before RX1, then an unconfirmed downlink in RX1: the ACK stays owed
@@ -376,7 +384,7 @@ pub struct Case {
 
 fn events(front: &str, region: &str) -> Vec<E> {
     let mut v = vec![];
-    let outs: &[u8] = if front == "nb" { &[0, 1, 2, 3] } else { &[0, 1, 2, 3, 4, 5, 6] };
+    let outs: &[u8] = if front == "nb" { &[0, 1, 2, 3, 7] } else { &[0, 1, 2, 3, 7, 4, 5, 6] };
     for c in [false, true] {
         for &o in outs {
             v.push(E::Up { confirmed: c, outcome: o });
@@ -443,7 +451,7 @@ pub fn run(tier: Tier, replay: Option<&str>) {
                         let mut out = vec![];
                         for e in &evs {
                             // beyond the horizon only downlinks / toggles are interesting
-                            if s.cnt > horizon && matches!(e, E::Up { outcome: 0 | 3, .. }) {
+                            if s.cnt > horizon && matches!(e, E::Up { outcome: 0 | 3 | 7, .. }) {
                                 continue;
                             }
                             let (v, ns) = step(front, region, s, e);
@@ -511,7 +519,7 @@ pub fn run(tier: Tier, replay: Option<&str>) {
         "samples": [serde_json::to_value(Case { front: "nb".into(), region: "EU868".into(), state: St { dr: 5, adr: true, cnt: 95, owed_ack: true, confirmed: false, has_down: true, models: vec![Model { cnt: 95, dr: 5, owed: true, adr: true, strict: true }] }, event: E::Up { confirmed: true, outcome: 0 }, path_len: 96 }).unwrap()],
         "evaluations": ctx.evals(),
         "distinct_nontrivial": states_total,
-        "rule": "complete reachable graph of (data rate, ADR flag, ADR counter, owed ACK, last uplink confirmed, downlink seen, reference-model candidates) from the fresh session at the highest uplink rate, per region and front-end (nb; async with Class C); every state is restored on a fresh real device through Session (de)serialisation + public setters, then one event is applied: uplink (confirmed / unconfirmed) with outcome {nothing, accepted unconfirmed dl RX1, accepted confirmed dl RX2, rejected dl, Class C accepted dl before RX1 / RX2, confirmed Class C dl before RX1 followed by an unconfirmed dl in RX1}, set_adr(on/off), set_datarate(lowest/middle/highest, and DR8 above the RFU gap of the fixed plans). The counter dimension is followed until it has passed every back-off step plus two periods. In addition, in every region, two straight-line histories of 400 unanswered uplinks on one device instance (after an accepted LinkADRReq that commands a TX power, and without one), each uplink compared with the back-off schedule",
+        "rule": "complete reachable graph of (data rate, ADR flag, ADR counter, owed ACK, last uplink confirmed, downlink seen, reference-model candidates) from the fresh session at the highest uplink rate, per region and front-end (nb; async with Class C); every state is restored on a fresh real device through Session (de)serialisation + public setters, then one event is applied: uplink (confirmed / unconfirmed) with outcome {nothing, accepted unconfirmed dl RX1, accepted confirmed dl RX2, rejected dl, authentic but oversized dl in RX2, Class C accepted dl before RX1 / RX2, confirmed Class C dl before RX1 followed by an unconfirmed dl in RX1}, set_adr(on/off), set_datarate(lowest/middle/highest, and DR8 above the RFU gap of the fixed plans). The counter dimension is followed until it has passed every back-off step plus two periods. In addition, in every region, two straight-line histories of 400 unanswered uplinks on one device instance (after an accepted LinkADRReq that commands a TX power, and without one), each uplink compared with the back-off schedule",
         "max_adr_counter_reached": max_cnt_seen,
         "regions": regions,
         "outcomes": outcomes,
